@@ -187,18 +187,25 @@ def a_isCaseMissing(T):
     return '\n' + tr.block(list(f.body), env, [], '  ', fell_off)
 
 
+def _default_of_method(T, name):
+    f = find(T['case_runner'], [name])
+    names = [x.arg for x in f.args.args]
+    if 'method' not in names: raise NotFound(name + ' has no parameter `method`')
+    i = names.index('method') - (len(names) - len(f.args.defaults))
+    if i < 0: raise NotFound('method has no default in ' + name)
+    d = f.args.defaults[i]
+    if not (isinstance(d, ast.Constant) and isinstance(d.value, str)): raise NotFound('default of method in ' + name)
+    return lean_str(d.value)
+
+
 def a_missingDefaultMethod(T):
-    """the default of `method` in the three signatures (they must agree: the callers hand `method` on by keyword)"""
-    out = set()
-    for name in ('is_case_missing', 'find_missing_cases', 'parse_into_cases'):
-        f = find(T['case_runner'], [name])
-        names = [x.arg for x in f.args.args]
-        i = names.index('method') - (len(names) - len(f.args.defaults))
-        d = f.args.defaults[i]
-        if not (isinstance(d, ast.Constant) and isinstance(d.value, str)): raise NotFound('default of method')
-        out.add(d.value)
-    if len(out) != 1: raise NotFound('defaults of method differ')
-    return lean_str(out.pop())
+    """the default of `method` in `is_case_missing` (what a call that leaves `method` out means)"""
+    return _default_of_method(T, 'is_case_missing')
+
+
+def a_missingEntryDefaults(T):
+    """the defaults of `method` in `find_missing_cases` and `parse_into_cases`"""
+    return '[' + ', '.join(_default_of_method(T, n) for n in ('find_missing_cases', 'parse_into_cases')) + ']'
 
 
 # ================================================================================================ 2. the loops
@@ -503,6 +510,7 @@ def a_parseIntoCases(T):
 _OPS = '{D M R V : Type} (o : MissOps D M R V)'
 ANCHORS = [
     ('missingDefaultMethod', ': String', a_missingDefaultMethod),
+    ('missingEntryDefaults', ': List String', a_missingEntryDefaults),
     ('isCaseMissing', _OPS + ' (ds : D) (setting : List (String × V)) (method : String) : Except MErr Bool', a_isCaseMissing),
     ('findMissing', _OPS + ' (ds : D) (ignoreDims : IgnoreArg) (method : String) (showProgbar : Bool) : '
      'Except MErr (List String × List (List V))', a_findMissing),
